@@ -21,6 +21,17 @@ for i in range(1, 21):
     if pr:
         out.append("Last run (%s tier): %d rule instances; per rule: %s." % (ev.get("tier"), cov.get("obligations", 0), ", ".join("%s %d" % (k, v["instances"]) for k, v in sorted(pr.items()))))
     out.append("")
+import subprocess
+rows = []
+for i in range(1, 21):
+    pid = "C%02d" % i
+    src = open("/verif/analysis/rules/%s.py" % pid).read()
+    for m in re.finditer(r'compose\(ctx, rep, "(C\d\d)", "([^"]+)", r"([^"]+)"\)', src):
+        rows.append("| %s | %s | %s | %s.* |" % (pid, m.group(1), m.group(3).strip("^$").replace("|", ", ").replace("\\.", "."), m.group(2)))
+matrix = "Rule families composed from other modules (one level deep, `rules/common.py: compose`); function-level sharing (`C08.protocol`, `iolib.count_rules`, `C17.decoder_*_rules`, `castlib`, `cachelib`, `invlib`, ...) is listed in the module docstrings above.\n\n| check | takes from | families | reported as |\n|---|---|---|---|\n" + "\n".join(rows) + "\n"
+out.append("#### Composition matrix  <!-- COMPOSE-MATRIX -->")
+out.append("")
+out.append(matrix)
 txt = "\n".join(out)
 p = "/verif/DESIGN.md"
 s = open(p).read()
